@@ -101,9 +101,20 @@ def run(ctx, rep):
         rec = a[1]
         src = element_iterator(g, P, event_args(g, an)[1])      # a `for` loop's next(), or an adaptor running a closure per element
         ok_iter = False
+        SKIPS = r"Iterator::(filter|skip|take|rev|step_by|skip_while|take_while|filter_map)$"
+        pair_form = None          # how the (start, end) of a record's segment is carried by the element when it is not an index
         if src:
             it = src[0]
-            ok_iter = call_is(it, r"Iterator::enumerate$") and not contains(it, lambda x: call_is(x, r"Iterator::(filter|skip|take|rev|step_by|skip_while|take_while|filter_map)$"))
+            ok_iter = call_is(it, r"Iterator::enumerate$") and not contains(it, lambda x: call_is(x, SKIPS))
+            if not ok_iter and call_is(it, r"Iterator::zip$"):
+                # zip(<consecutive offset pairs>, records): windows(offsets, 2), or zip(offsets, skip(offsets, 1))
+                w, r_ = call_arg(it, 0), call_arg(it, 1)
+                if not contains(r_, lambda x: call_is(x, SKIPS)):
+                    if call_is(w, r"slice::<impl \[T\]>::windows$") and is_const(call_arg(w, 1), 2):
+                        ok_iter, pair_form = True, ("windows", call_arg(w, 0))
+                    elif call_is(w, r"Iterator::zip$") and call_is(call_arg(w, 1), r"Iterator::skip$") and is_const(call_arg(call_arg(w, 1), 1), 1) \
+                            and call_arg(call_arg(w, 1), 0) == call_arg(w, 0) and not contains(call_arg(w, 0), lambda x: call_is(x, SKIPS)):
+                        ok_iter, pair_form = True, ("zip", call_arg(w, 0))
         if ok_iter:
             rep.ok("R02.3", "replay iterates all loaded records in order", expr_s(src[0])[:80], where=g.where(src[1]))
         else:
@@ -127,6 +138,25 @@ def run(ctx, rep):
                     return isinstance(i, tuple) and i[0] == "binop" and i[1].startswith("Add") and is_const(i[3], 1) and is_field(i[2], "0")
                 return is_field(i, "0")
             seg_ok = idx_i(s0, False) and isinstance(s1, tuple) and s1[0] == "binop" and s1[1].startswith("Sub") and idx_i(s1[2], True) and idx_i(s1[3], False)
+            if not seg_ok and pair_form and src and isinstance(s1, tuple) and s1 and s1[0] == "binop" and s1[1].startswith("Sub"):
+                def is_elem(z):
+                    return isinstance(z, tuple) and z and z[0] == "okval" and call_is(z[1], NEXT_RX) and strip_ids(call_arg(z[1], 0)) == src[0]
+
+                def is_pair(z):
+                    return is_field(z, "0") and is_elem(z[1])
+
+                def part(z, k):
+                    z = c11_unfield(strip_ids(z)) if not (isinstance(z, tuple) and z and z[0] in ("idx", "field")) else strip_ids(z)
+                    if pair_form[0] == "windows":
+                        return is_index(z, is_pair, k)
+                    return is_field(z, str(k)) and is_pair(z[1])
+                seg_ok = part(s0, 0) and part(s1[2], 1) and part(s1[3], 0)
+        if not cid_ok and pair_form:
+            # the id of the chunk being replayed read back from the loaded chunk: its first offset
+            cid_ok = isinstance(cid, tuple) and cid and cid[0] == "agg" and str(cid[1]).endswith("ChunkId") and cid[3] and \
+                is_index(cid[3][0], lambda b: b == pair_form[1], 0)
+        if False:
+            pass
         if cid_ok and seg_ok:
             rep.ok("R02.3", "replay apply(chunk_id, segment)", "this chunk's id; (offsets[i], offsets[i+1]-offsets[i])", where=g.where(an))
         else:
